@@ -745,18 +745,33 @@ def c18_streams(tier, rng):
     def fn(kind, pv, S, r):
         return c01_ops(kind, pv, S, r) + c04_ops(kind, pv, S, r)[:8] + [["tabs"]]
     dcases = kind_cases(tier, rng, ["HTFC", "HHTFC", "RPHTFC", "HASHHF", "HASHUFFDAC"], fn, battery=small_battery(tier, rng, 30 if tier == "thorough" else 12), name="t")
-    # strings whose codewords exceed the 16-bit chunk: rare bytes in a skewed text
+    # strings whose codewords exceed the 16-bit chunk of the decoding table. Every code starts with 256
+    # unit weights, so a byte that occurs once gets a codeword of more than 16 bits only in a text of
+    # well over 100 KB with a geometric letter distribution; the rare bytes are put at the start of a
+    # string (byte-aligned codeword) and inside one.
     r = rng.fork("longcw")
-    common = [bytes([0x61]) * k for k in range(1, 60)]
-    rare = sorted(set(bytes(r.sample(range(0x80, 0xF0), 5)) for _ in range(12)))
-    S = sorted(set(common + rare))
-    for kind in ("HTFC", "HHTFC", "HASHHF", "HASHUFFDAC"):
-        for pv in ({"b": 3, "ov": 25}, {"b": 8, "ov": 0}):
+    letters = [0x61 + k for k in range(13)]
+    def skewed(n):
+        out = bytearray()
+        for _ in range(n):
+            k = 0
+            while k < 12 and r.chance(1, 2):
+                k += 1
+            out.append(letters[k])
+        return bytes(out)
+    body = set()
+    while len(body) < (900 if tier == "thorough" else 700):
+        body.add(skewed(200))
+    rare = [bytes([0xE0 + i]) + skewed(30) for i in range(6)] + [skewed(17) + bytes([0xD0 + i]) + skewed(9) for i in range(4)]
+    S = sorted(body | set(rare))
+    probe = rare + r.sample(sorted(body), 25)
+    for kind in ("HTFC", "HHTFC", "RPHTFC", "HASHHF", "HASHUFFDAC"):
+        for pv in ({"b": 3, "ov": 25}, {"b": 16, "ov": 0}):
             for ph, pre in (("b", []), ("l", [["reload", "own", 1]])):
-                ops = pre + [["loc" if kind in EXACT_ID_KINDS else "rt", hx(s)] for s in S] + [["exts"]]
+                ops = pre + [["loc" if kind in EXACT_ID_KINDS else "rt", hx(s)] for s in probe] + [["exts"]]
                 cases_id = "lc_%s_%s_%s" % (kind, pv["b"], ph)
                 dcases.append((cases_id, "dict", kind, pv, S, ops))
-    return [StreamSet("tables", "asan", cases, phase2=codes_phase2), StreamSet("decoding", "asan", dcases)]
+    return [StreamSet("tables", "asan", cases, phase2=codes_phase2), StreamSet("decoding", "asan", dcases, timeout=120)]
 
 
 def bitvectors(tier, rng):
